@@ -49,6 +49,13 @@ def label_matches(line, speak):
     return False
 
 
+try:
+    with open(os.path.join(common.VERIF, 'oracle', 'exclusive_pairs.json')) as _f:
+        XPAIRS = json.load(_f)['groups']
+except Exception:
+    XPAIRS = {}
+
+
 def year_task(year):
     instrument.install()
     cat = summary.Catalogue(year)
@@ -166,6 +173,25 @@ def year_task(year):
                     for pf_, _ in lst:
                         if pf_ not in groups[(stem + '(yes/no)', la)]:
                             groups[(stem + '(yes/no)', la)].append(pf_)
+        # ---- reviewed pairs of AcroForm-only templates (oracle/exclusive_pairs.json): one driving line, then exclusivity
+        byname = {}
+        for pf in pdf_fields:
+            if isinstance(pf, P.ButtonPDFField):
+                byname.setdefault(pf.pdf_field_name, []).append(pf)
+        for grp in XPAIRS.get(str(year), {}).get(cls.form_name, []):
+            if not all(g in byname for g in grp):
+                continue
+            lines_ = sorted(set(pf.field_name for g in grp for pf in byname[g]))
+            ok = len(lines_) == 1
+            res['obl'].append(('ty%d/%s/box-pair/%s' % (year, cls.form_name, '+'.join(grp)), 'unsat' if ok else 'sat', 0.0))
+            if not ok:
+                V('ty%d:%s:%s:pair' % (year, cls.form_name, '+'.join(grp)), 'the boxes %s belong together but are driven by different lines %s' % (grp, lines_))
+            else:
+                gl = groups.setdefault(('+'.join(grp), lines_[0]), [])
+                for g in grp:
+                    for pf in byname[g]:
+                        if pf not in gl:
+                            gl.append(pf)
         # ---- symbolic: exclusivity within groups of boxes sharing a parent and a driving line
         for (base, ln), pfs in groups.items():
             if len(pfs) < 2:
